@@ -15,6 +15,7 @@ import (
 	"strconv"
 	"strings"
 	"sync"
+	"syscall"
 	"testing"
 	"time"
 
@@ -23,6 +24,9 @@ import (
 
 // Verdict is what a pure Check function returns for one case.
 type Verdict struct {
+	// Poisoned: the violation left a goroutine of the code under test spinning for ever; the
+	// process reports this case as it is (no shrinking) and stops.
+	Poisoned bool
 	// Violation is non-empty when the property is violated by this case in a
 	// way no listed known finding explains.
 	Violation string
@@ -276,19 +280,23 @@ func (r *Recorder) Flush() {
 
 // ---------------------------------------------------------------------------
 
-// Guard runs check(c), turning a panic into a violation.
-func Guard[C any](check func(C) Verdict, c C) (v Verdict) {
-	defer func() {
-		if e := recover(); e != nil {
-			st := string(debug.Stack())
-			if len(st) > 3000 {
-				st = st[:3000]
-			}
-			v.Violation = fmt.Sprintf("panic: %v\n%s", e, st)
-		}
-	}()
-	return check(c)
+// Guard runs check(c), turning a panic into a violation. The check runs under
+// the CPU-time watchdog: code under test that loops for ever (every check
+// costs milliseconds to a few seconds of CPU) becomes a violation too, and the
+// process then stops, because the stuck goroutine cannot be taken back.
+func Guard[C any](check func(C) Verdict, c C) Verdict {
+	var v Verdict
+	pmsg, hung := Watchdog(guardBudget, func() { v = check(c) })
+	if hung {
+		return Verdict{Violation: fmt.Sprintf("the code under test did not return: the check used more than %v of CPU time (or 30 minutes of wall-clock time) on this one case", guardBudget), Poisoned: true}
+	}
+	if pmsg != "" {
+		v.Violation = pmsg
+	}
+	return v
 }
+
+const guardBudget = 300 * time.Second
 
 // Shard returns (shard, nshards) from the environment.
 func Shard() (int, int) {
@@ -360,6 +368,12 @@ func Run[C any](t *testing.T, property, unit string, gen func(*rapid.T) C, check
 		c := gen(rt)
 		v := Guard(check, c)
 		rec.Record(c, v)
+		if v.Violation != "" && v.Poisoned {
+			rec.Flush()
+			js, _ := json.Marshal(c)
+			fmt.Printf("--- FAIL: %s/%s: %s\ncase (not shrunk, the process is poisoned): %s\n", property, unit, v.Violation, trunc(string(js), 4000))
+			os.Exit(1)
+		}
 		if v.Violation != "" {
 			js, _ := json.Marshal(c)
 			rt.Fatalf("%s\ncase: %s", v.Violation, trunc(string(js), 4000))
@@ -397,6 +411,13 @@ func Enum[C any](t *testing.T, property, unit string, exhaustive bool, enum func
 	nfail := 0
 	enum(func(c C) bool {
 		v := Guard(check, c)
+		if v.Violation != "" && v.Poisoned {
+			rec.Record(c, v)
+			rec.Flush()
+			js, _ := json.Marshal(c)
+			fmt.Printf("--- FAIL: %s/%s: %s\ncase (the process is poisoned): %s\n", property, unit, v.Violation, trunc(string(js), 4000))
+			os.Exit(1)
+		}
 		if v.Violation != "" {
 			js, _ := json.Marshal(c)
 			if best == nil || len(js) < bestLen {
@@ -453,10 +474,15 @@ func ScratchDir(prefix string) (string, func()) {
 // JoinLabels is a helper for diagnostics.
 func JoinLabels(ls []string) string { return strings.Join(ls, ",") }
 
-// Watchdog runs f in its own goroutine and waits up to budget for it. It
-// returns the recovered panic (with stack) if f panicked and whether f failed
-// to return within the budget. The budget is a liveness bound several orders
-// of magnitude above the normal cost, never a performance assertion.
+// Watchdog runs f in its own goroutine and reports the recovered panic (with
+// stack) if f panicked, and whether f is taken to run for ever. The budget is
+// counted in CPU time of this process, not in wall-clock time: a case that is
+// merely starved on a busy machine does not burn CPU and is waited for, while
+// code stuck in a loop does. (The processes that use the watchdog run one case
+// at a time, so the process's CPU time is the case's.) The budget is a
+// liveness bound several orders of magnitude above the normal cost, never a
+// performance assertion. Independently of CPU time, f is given up after 30
+// minutes of wall-clock time.
 func Watchdog(budget time.Duration, f func()) (panicMsg string, hung bool) {
 	done := make(chan string, 1)
 	go func() {
@@ -473,12 +499,28 @@ func Watchdog(budget time.Duration, f func()) (panicMsg string, hung bool) {
 		}()
 		f()
 	}()
-	select {
-	case m := <-done:
-		return m, false
-	case <-time.After(budget):
-		return "", true
+	cpu0, start := processCPU(), time.Now()
+	tick := time.NewTicker(200 * time.Millisecond)
+	defer tick.Stop()
+	for {
+		select {
+		case m := <-done:
+			return m, false
+		case <-tick.C:
+			if processCPU()-cpu0 > budget || time.Since(start) > 30*time.Minute {
+				return "", true
+			}
+		}
 	}
+}
+
+// processCPU returns the user+system CPU time consumed by this process so far.
+func processCPU() time.Duration {
+	var ru syscall.Rusage
+	if err := syscall.Getrusage(syscall.RUSAGE_SELF, &ru); err != nil {
+		return 0
+	}
+	return time.Duration(ru.Utime.Nano() + ru.Stime.Nano())
 }
 
 // OneIn draws a boolean that is true roughly once in n draws. rapid's integer
